@@ -34,6 +34,7 @@ import (
 	"go.opentelemetry.io/collector/component"
 	"go.opentelemetry.io/collector/component/componenttest"
 	"go.opentelemetry.io/collector/consumer"
+	"go.opentelemetry.io/collector/consumer/xconsumer"
 	"go.opentelemetry.io/collector/consumer/consumererror"
 	"go.opentelemetry.io/collector/extension/extensiontest"
 	"go.opentelemetry.io/collector/extension/memorylimiterextension"
@@ -41,8 +42,10 @@ import (
 	"go.opentelemetry.io/collector/pdata/plog"
 	"go.opentelemetry.io/collector/pdata/pmetric"
 	"go.opentelemetry.io/collector/pdata/ptrace"
+	"go.opentelemetry.io/collector/pdata/pprofile"
 	"go.opentelemetry.io/collector/processor/memorylimiterprocessor"
 	"go.opentelemetry.io/collector/processor"
+	"go.opentelemetry.io/collector/processor/xprocessor"
 )
 
 type cfgT struct {
@@ -528,6 +531,27 @@ func buildUsers(c cfgT, sys *system, names []string) (map[string]*user, error) {
 					err := p.ConsumeTraces(ctx, td)
 					return err, before, mustBytes(tm.MarshalTraces(td))
 				}
+			case "profiles":
+				pm := &pprofile.ProtoMarshaler{}
+				next, _ := xconsumer.NewProfiles(func(_ context.Context, pd pprofile.Profiles) error {
+					sk.got = append(sk.got, mustBytes(pm.MarshalProfiles(pd)))
+					return sk.result()
+				})
+				xf, ok := f.(xprocessor.Factory)
+				if !ok {
+					return fmt.Errorf("memory limiter processor factory does not build profiles processors")
+				}
+				p, err := xf.CreateProfiles(ctx, set, cfg, next)
+				if err != nil {
+					return err
+				}
+				u.comp = p
+				u.consume = func(ctx context.Context, _ *sink) (error, []byte, []byte) {
+					pd := genProfiles()
+					before := mustBytes(pm.MarshalProfiles(pd))
+					err := p.ConsumeProfiles(ctx, pd)
+					return err, before, mustBytes(pm.MarshalProfiles(pd))
+				}
 			default:
 				return fmt.Errorf("unknown user %q", n)
 			}
@@ -575,6 +599,20 @@ func genMetrics() pmetric.Metrics {
 	g.SetName("load")
 	g.SetEmptyGauge().DataPoints().AppendEmpty().SetDoubleValue(0.5)
 	return md
+}
+
+func genProfiles() pprofile.Profiles {
+	pd := pprofile.NewProfiles()
+	rp := pd.ResourceProfiles().AppendEmpty()
+	rp.Resource().Attributes().PutStr("host", "h1")
+	sp := rp.ScopeProfiles().AppendEmpty()
+	sp.Scope().SetName("scope")
+	for i := 0; i < 2; i++ {
+		pr := sp.Profiles().AppendEmpty()
+		pr.SetDroppedAttributesCount(uint32(i + 1))
+		pr.Sample().AppendEmpty().SetLocationsLength(int32(i + 1))
+	}
+	return pd
 }
 
 func genTraces() ptrace.Traces {
